@@ -588,8 +588,10 @@ def hexlist(h):
 def three_way(all_scripts, work, limit=200):
     """Thorough tier: evaluate a sample of cases with Coq's vm_compute on the Gallina model and compare
     the fingerprints with those of the extracted OCaml model (Fingerprint.v)."""
+    # one construction per case: fp_case takes the NEW arguments and then the operations
     ids = [cid for cid, lines in all_scripts.items()
-           if lines and lines[0].startswith("NEW") and not any(l.startswith(("VNEW", "VP")) for l in lines)]
+           if lines and lines[0].startswith("NEW") and sum(1 for l in lines if l.startswith("NEW")) == 1
+           and not any(l.startswith(("VNEW", "VP")) for l in lines)]
     ids = ids[:limit]
     if not ids:
         return 0, []
